@@ -19,6 +19,40 @@ static unsigned refDecode(const char *q, unsigned char *out)
     }
     return o;
 }
+// every string of 0..CTXN bytes over 17 class representatives in one call: whatever a byte's neighbours are (multi-byte lead bytes,
+// continuation bytes, other metacharacters), each byte is neutralised and the whole decodes back
+#ifdef VF_THOROUGH
+#define CTXN 4
+#else
+#define CTXN 3
+#endif
+extern "C" void c32_html_context(void)
+{
+    vf_quiet();
+    const unsigned n = (unsigned)vf_concretize(vf_range(0, CTXN, "len"));
+    char *in = (char *)xmalloc(n + 1);
+    for (unsigned i = 0; i < n; ++i) {
+        // (a fully symbolic byte forks into ~165 escape-table classes; three of them do not finish) one representative per class that
+        // could matter to a context-sensitive quoter: plain, the five metacharacters, ';' and '#', a control, DEL, UTF-8 continuation
+        // bytes, 2-/3-/4-byte lead bytes, invalid lead bytes
+        const unsigned char b = vf_nondet_u8("byte");
+        vf_assume(b == 'a' || b == '<' || b == '>' || b == '"' || b == '\'' || b == '&' || b == ';' || b == '#' || b == 0x0b || b == 0x7f ||
+                  b == 0x80 || b == 0xbf || b == 0xc2 || b == 0xe2 || b == 0xf0 || b == 0xf4 || b == 0xff);
+        in[i] = (char)vf_concretize(b);   // fork into the 17 values here, once, instead of at every later table lookup
+    }
+    in[n] = 0;
+    const char *q = html_quote(in);
+    const size_t ql = strlen(q);
+    vf_assert(ql <= 6 * (size_t)n, "quoted form fits 6*len");
+    for (size_t i = 0; i < ql; ++i) vf_assert(q[i] != '<' && q[i] != '>' && q[i] != '"' && q[i] != '\'', "no raw markup metacharacter");
+    unsigned char back[(CTXN + 1) * 6 + 8];
+    const unsigned bl = refDecode(q, back);
+    vf_assert(bl == n, "decoded length");
+    for (unsigned i = 0; i < n; ++i) vf_assert(back[i] == (unsigned char)in[i], "decoding the entities returns the original");
+    vf_observe("ql", ql);
+    vf_reach("done");
+    WITNESS_POINT();
+}
 extern "C" void c32_html_quote(void)
 {
     vf_quiet();
